@@ -71,6 +71,19 @@ class HOPT(Harness):
         v = eng.real("v")
         if not eng.concrete:
             eng.assume(z3.And(v.e >= 2.0 ** -20, v.e <= 2.0 ** 20))
+        if p.get("caller") == "options":
+            # the caller hands in the Options object of an earlier instance (a dict subclass) instead of a plain dict
+            src = self.build(Opt, D, {name: v})
+            keys0 = set(dict.keys(src))
+            before = {k: (set(src[k]) if k == "useroptions" else src[k]) for k in keys0}
+            new = self.build(Opt, D2, src)
+            out.tag = dict(name=name, caller="options")
+            same_vals = all(src[k] is before[k] for k in keys0 if k != "useroptions")
+            out.ob("caller_options_object_unchanged", set(dict.keys(src)) == keys0 and same_vals and set(src["useroptions"]) == before["useroptions"])
+            out.ob("instances_do_not_share_option_state", new["useroptions"] is not src["useroptions"])
+            out.ob("user_value_takes_effect_exactly", new[name] is v or O.truth(O.eq(new[name], v, 0.0)) is True)
+            out.ob("user_value_recorded_as_protected", name in new["useroptions"] and "useroptions" not in new["useroptions"])
+            return out
         user = {name: v}
         user_before = dict(user)
         ref = self.build(Opt, D, None)            # no-override instance of the same dimension
